@@ -23,5 +23,4 @@ PROPERTY InvalidIgnored
 PROPERTY ReturnAtEnd
 PROPERTY ProblemDataConstant
 PROPERTY PlacedOnlyGrows
-CONSTRAINT Bounded
 CHECK_DEADLOCK FALSE
